@@ -169,7 +169,7 @@ theorem committed_eq_any (acts : List Action) : committed acts = (visA acts).any
   | nil => rfl
   | cons a rest ih =>
     cases a <;>
-      simp_all [visA, visibleOf, effectsOf, committed, Effect.visible, Effect.isDeliver, List.filter]
+      simp_all [visA, visibleOf, effectsOf, committed, Effect.observable, Effect.isDeliver, List.filter]
 
 /-! ## Before `start` everything is silent -/
 
@@ -265,6 +265,11 @@ structure LiveInv (M : Machine S) (s : S) (E : List Entry) (b : Nat) (tr : List 
   rok : ReplayOK M (M.init (b + 1)) (sortByHeight (above b E))
   /-- the replay broadcasts no vote the live run has not broadcast -/
   votesR : ∀ v ∈ votesOf (replayRun M (M.init (b + 1)) (sortByHeight (above b E))).2, v ∈ votesOf tr
+  /-- timers: every timer of the trace is for a height `≤ b + 1`; those for `b + 1` are armed again
+  by the replay, and the replay arms no other -/
+  timers : ∀ t ∈ timersOf tr, t.h ≤ b + 1 ∧
+    (t.h = b + 1 → t ∈ timersOf (replayRun M (M.init (b + 1)) (sortByHeight (above b E))).2)
+  timersR : ∀ t ∈ timersOf (replayRun M (M.init (b + 1)) (sortByHeight (above b E))).2, t ∈ timersOf tr
 
 /-- The part of the invariant that also holds for the base BEFORE a commit, right after the
 committing step (the machine is already one height further, the chain is not). -/
@@ -274,9 +279,13 @@ structure LiveInvW (M : Machine S) (s : S) (E : List Entry) (b : Nat) (tr : List
     (v.h = b + 1 → v ∈ votesOf (replayRun M (M.init (b + 1)) (sortByHeight (above b E))).2)
   rok : ReplayOK M (M.init (b + 1)) (sortByHeight (above b E))
   votesR : ∀ v ∈ votesOf (replayRun M (M.init (b + 1)) (sortByHeight (above b E))).2, v ∈ votesOf tr
+  timers : ∀ t ∈ timersOf tr, t.h ≤ b + 1 ∧
+    (t.h = b + 1 → t ∈ timersOf (replayRun M (M.init (b + 1)) (sortByHeight (above b E))).2)
+  timersR : ∀ t ∈ timersOf (replayRun M (M.init (b + 1)) (sortByHeight (above b E))).2, t ∈ timersOf tr
 
 theorem LiveInv.toW {M : Machine S} {s : S} {E : List Entry} {b : Nat} {tr : List Effect}
-    (h : LiveInv M s E b tr) : LiveInvW M s E b tr := ⟨h.state, h.votes, h.rok, h.votesR⟩
+    (h : LiveInv M s E b tr) : LiveInvW M s E b tr :=
+  ⟨h.state, h.votes, h.rok, h.votesR, h.timers, h.timersR⟩
 
 theorem votesOf_append (a b : List Effect) : votesOf (a ++ b) = votesOf a ++ votesOf b := by
   simp [votesOf]
@@ -284,6 +293,13 @@ theorem votesOf_append (a b : List Effect) : votesOf (a ++ b) = votesOf a ++ vot
 theorem votesOf_visibleOf_eq {a b : List Effect} (h : visibleOf a = visibleOf b) :
     votesOf a = votesOf b := by
   rw [← votesOf_visibleOf a, h, votesOf_visibleOf]
+
+theorem timersOf_append (a b : List Effect) : timersOf (a ++ b) = timersOf a ++ timersOf b := by
+  simp [timersOf]
+
+theorem timersOf_visibleOf_eq {a b : List Effect} (h : visibleOf a = visibleOf b) :
+    timersOf a = timersOf b := by
+  rw [← timersOf_visibleOf a, h, timersOf_visibleOf]
 
 theorem above_snoc_ge (b : Nat) (E : List Entry) (e : Entry) (h : b < e.height) :
     above b (E ++ [e]) = above b E ++ [e] := by
@@ -335,6 +351,10 @@ theorem liveInv_step (M : Machine S) (hs : ReplaySafe M) (s : S) (E : List Entry
     intro v hv
     rw [votes_effectsOf_mode] at hv
     rw [hs.votes_current_height s i v hv, inv.height]
+  have hnewtimers : ∀ t ∈ timersOf (effectsOf false (M.step s i).2), t.h = b + 1 := by
+    intro t ht
+    rw [timers_effectsOf_mode] at ht
+    rw [hs.timers_current_height s i t ht, inv.height]
   have hetm : e.isTimeout = true → e.height = M.height s :=
     fun ht => hs.timeout_entry_current s i e ar h2 ht
   have hefut : M.height s < e.height → e.toInput ≠ Input.start ∧ e.isTimeout = false := by
@@ -377,7 +397,9 @@ theorem liveInv_step (M : Machine S) (hs : ReplaySafe M) (s : S) (E : List Entry
   have hW : LiveInvW M (M.step s i).1 (E ++ [e]) b (tr ++ effectsOf false (M.step s i).2) := by
     have hvotes0 := votesOf_visibleOf_eq (hvis0.trans (visibleOf_append _ _).symm)
     rw [votesOf_append] at hvotes0
-    refine ⟨hstate0, ?_, hrok0, ?_⟩
+    have htimers0 := timersOf_visibleOf_eq (hvis0.trans (visibleOf_append _ _).symm)
+    rw [timersOf_append] at htimers0
+    refine ⟨hstate0, ?_, hrok0, ?_, ?_, ?_⟩
     rotate_left
     · intro v hv
       rw [hvotes0, List.mem_append] at hv
@@ -385,6 +407,22 @@ theorem liveInv_step (M : Machine S) (hs : ReplaySafe M) (s : S) (E : List Entry
       rcases hv with hv | hv
       · exact Or.inl (inv.votesR v hv)
       · right; rw [votes_effectsOf_mode]; exact hv
+    · intro t ht
+      rw [timersOf_append, List.mem_append] at ht
+      rcases ht with ht | ht
+      · refine ⟨(inv.timers t ht).1, fun h => ?_⟩
+        rw [htimers0, List.mem_append]
+        exact Or.inl ((inv.timers t ht).2 h)
+      · refine ⟨by rw [hnewtimers t ht]; omega, fun _ => ?_⟩
+        rw [htimers0, List.mem_append]
+        rw [timers_effectsOf_mode] at ht
+        exact Or.inr ht
+    · intro t ht
+      rw [htimers0, List.mem_append] at ht
+      rw [timersOf_append, List.mem_append]
+      rcases ht with ht | ht
+      · exact Or.inl (inv.timersR t ht)
+      · right; rw [timers_effectsOf_mode]; exact ht
     intro v hv
     rw [votesOf_append, List.mem_append] at hv
     rcases hv with hv | hv
@@ -496,7 +534,28 @@ theorem liveInv_step (M : Machine S) (hs : ReplaySafe M) (s : S) (E : List Entry
         · exact inv.futns x hxE hxh
         · omega)]
       rfl
-    refine ⟨hnewh, hstate1, ?futns, ?votes, ?rok, by rw [hFutSilent]; intro v hv; cases hv⟩
+    have hFutSilentT : timersOf (replayRun M (M.init (b + 2))
+        (sortByHeight (above (b + 1) (E ++ [e])))).2 = [] := by
+      rw [← timersOf_visibleOf, unstarted_run_silent M hs _ _ (hs.started_init _) (fun x hx => by
+        have hx' := (mem_sort x _).1 hx
+        have hxE := (List.mem_filter.1 hx').1
+        have hxh := (List.mem_filter.1 hx').2
+        simp at hxh
+        simp only [List.mem_append, List.mem_singleton] at hxE
+        rcases hxE with hxE | rfl
+        · exact inv.futns x hxE hxh
+        · omega)]
+      rfl
+    refine ⟨hnewh, hstate1, ?futns, ?votes, ?rok, (by rw [hFutSilent]; intro v hv; cases hv), ?timers,
+      (by rw [hFutSilentT]; intro t ht; cases ht)⟩
+    case timers =>
+      intro t ht
+      rw [timersOf_append, List.mem_append] at ht
+      rcases ht with ht | ht
+      · have := (inv.timers t ht).1
+        exact ⟨by omega, fun h => by omega⟩
+      · have := hnewtimers t ht
+        exact ⟨by omega, fun h => by omega⟩
     case rok =>
       refine replayOK_no_timeouts M _ _ (fun x hx => ?_)
       have hx' := (mem_sort x _).1 hx
@@ -528,7 +587,7 @@ theorem liveInv_step (M : Machine S) (hs : ReplaySafe M) (s : S) (E : List Entry
       rw [hs.no_commit_height s i hc', inv.height]
     have hbase : M.height (M.step s i).1 - 1 = b := by omega
     rw [hbase]
-    refine ⟨hnewh, hstate0, ?_, hW.votes, hrok0, hW.votesR⟩
+    refine ⟨hnewh, hstate0, ?_, hW.votes, hrok0, hW.votesR, hW.timers, hW.timersR⟩
     intro x hx hlt
     simp only [List.mem_append, List.mem_singleton] at hx
     rcases hx with hx | rfl
